@@ -37,6 +37,7 @@ func genC11(g *simrt.Tape, tier string) any {
 				if g.Draw(6) == 0 {
 					genCtx(g, &call)
 				}
+				call.Via = genVia(g)
 			}
 			cs.Calls = append(cs.Calls, call)
 		}
